@@ -40,6 +40,18 @@ impl Elem for f32 {
     }
     const NAME: &'static str = "f32";
 }
+/// an element type whose default value is NOT the all-zero bit pattern (Nucleotide::default() = N = 4)
+impl Elem for lightmotif::abc::Nucleotide {
+    fn from_u8(x: u8) -> Self {
+        use lightmotif::abc::Nucleotide::*;
+        [A, C, T, G, N][(x % 5) as usize]
+    }
+    fn to_i64(&self) -> i64 {
+        use lightmotif::abc::Symbol;
+        self.as_index() as i64
+    }
+    const NAME: &'static str = "Nucleotide";
+}
 impl Elem for i64 {
     fn from_u8(x: u8) -> Self {
         -(x as i64) * 0x0101010101
@@ -475,19 +487,21 @@ macro_rules! insts {
     };
 }
 
-pub const N_INST: usize = 28;
+pub const N_INST: usize = 35;
+type Nuc = lightmotif::abc::Nucleotide;
 
 pub fn run_index(i: usize, ctx: &mut Ctx, rep: &mut Report, depth: usize) {
     insts!(run_inst, i, ctx, rep, depth;
         (0, u8, U1), (1, u8, U5), (2, u8, U7), (3, u8, U16), (4, u8, U21), (5, u8, U32), (6, u8, U43),
         (7, u32, U1), (8, u32, U5), (9, u32, U7), (10, u32, U16), (11, u32, U21), (12, u32, U32), (13, u32, U43),
         (14, f32, U1), (15, f32, U5), (16, f32, U7), (17, f32, U16), (18, f32, U21), (19, f32, U32), (20, f32, U43),
-        (21, i64, U1), (22, i64, U5), (23, i64, U7), (24, i64, U16), (25, i64, U21), (26, i64, U32), (27, i64, U43)
+        (21, i64, U1), (22, i64, U5), (23, i64, U7), (24, i64, U16), (25, i64, U21), (26, i64, U32), (27, i64, U43),
+        (28, Nuc, U1), (29, Nuc, U5), (30, Nuc, U7), (31, Nuc, U16), (32, Nuc, U21), (33, Nuc, U32), (34, Nuc, U43)
     );
 }
 
 fn inst_index(name: &str) -> Option<usize> {
-    let ts = ["u8", "u32", "f32", "i64"];
+    let ts = ["u8", "u32", "f32", "i64", "Nucleotide"];
     let cs = [1, 5, 7, 16, 21, 32, 43];
     for (a, t) in ts.iter().enumerate() {
         for (b, c) in cs.iter().enumerate() {
@@ -504,7 +518,7 @@ pub fn run(ctx: &mut Ctx, rep: &mut Report) {
     rep.space(
         "histories",
         &format!(
-            "explicit-state BFS over the real DenseMatrix<T,C> for T in {{u8,u32,f32,i64}} x C in {{1,5,7,16,21,32,43}}; \
+            "explicit-state BFS over the real DenseMatrix<T,C> for T in {{u8,u32,f32,i64,Nucleotide (default value N is not the all-zero pattern)}} x C in {{1,5,7,16,21,32,43}}; \
              {} operations (new/with_capacity/from_rows/uninitialized+write/resize/fill/IndexMut<usize>/IndexMut<MatrixCoordinates>/iter_mut/clone/clone_from/reserve), \
              all histories to depth {} with canonical-state de-duplication (rows, capacity<=24, logical cells); \
              a state is non-trivial when distinct by that key; every transition re-executes its whole history on a fresh matrix and is checked against the Vec<Vec<T>> model",
@@ -560,7 +574,8 @@ pub fn replay(ctx: &mut Ctx, rep: &mut Report, case: &Value) {
         (0, u8, U1), (1, u8, U5), (2, u8, U7), (3, u8, U16), (4, u8, U21), (5, u8, U32), (6, u8, U43),
         (7, u32, U1), (8, u32, U5), (9, u32, U7), (10, u32, U16), (11, u32, U21), (12, u32, U32), (13, u32, U43),
         (14, f32, U1), (15, f32, U5), (16, f32, U7), (17, f32, U16), (18, f32, U21), (19, f32, U32), (20, f32, U43),
-        (21, i64, U1), (22, i64, U5), (23, i64, U7), (24, i64, U16), (25, i64, U21), (26, i64, U32), (27, i64, U43)
+        (21, i64, U1), (22, i64, U5), (23, i64, U7), (24, i64, U16), (25, i64, U21), (26, i64, U32), (27, i64, U43),
+        (28, Nuc, U1), (29, Nuc, U5), (30, Nuc, U7), (31, Nuc, U16), (32, Nuc, U21), (33, Nuc, U32), (34, Nuc, U43)
     );
 }
 
